@@ -317,7 +317,7 @@ def main(tier, replay):
         j = case['job']; rec = one((j[0], j[1], j[2], j[3], j[4], j[5]))
         print(json.dumps(rec['bad'], indent=1)[:4000]); sys.exit(1 if rec['bad'] else 0)
     rng = chk.rng
-    runs = 96 if tier == 'quick' else 3000
+    runs = 192 if tier == 'quick' else 3000
     jobs = []
     for i in range(runs):
         p = gen_params(rng)
